@@ -1,4 +1,5 @@
 import Cx.Proofs.LitCheck
+import Cx.Proofs.SeqOps
 /-
   C17 — extracted literals are necessary for every match.
 
@@ -9,6 +10,11 @@ import Cx.Proofs.LitCheck
   haystack, at EVERY offset, EVERY span accepted by the NFA starts with / ends with / contains a member of `lits` —
   i.e. a prefilter that skips positions where no literal occurs cannot drop a match.  The quantifier over haystacks is
   discharged by the theorem, the quantifier over (pattern, extractor configuration) is sampled by the check.
+
+  Second part (`Cx.Model.SeqOps` / `Cx.Proofs.SeqOps`, model of `literal/seq.go`): the set reductions applied to an
+  extracted sequence — longest common prefix / suffix, minimisation, de-duplication, truncation, cross product — KEEP
+  the necessity guarantee: whatever was true of every match before the reduction (starts with / ends with one of the
+  literals) is true after it.  Model-to-code: `gocheck/seqops.go`, exhaustive small sequences + random, 0 mismatches.
 -/
 namespace Cx.C17
 open Cx Cx.Nfa Cx.Lit
@@ -42,5 +48,63 @@ example : checkSuffix exXFoo [[102, 111, 111]] = true := by decide +kernel
 example : checkInner exXFoo [[111, 111]] = true := by decide +kernel
 example : checkPrefix exXFoo [[102, 111, 111]] = false := by decide +kernel
 example : checkPrefixWitness exXFoo [[102, 111, 111]] = some [120, 102, 111, 111] := by decide +kernel
+
+/-! ## the set reductions keep the guarantees (`literal/seq.go`) -/
+section SeqOps
+open Cx.SeqOps
+
+/-- LongestCommonPrefix: if every match `m` starts with one of the prefix literals, it starts with their LCP
+    (which is the greatest byte string with that property of the literals) -/
+theorem C17_lcp_keeps_prefix (s : List SeqOps.Lit) (m : List Nat) (h : ∃ l ∈ s, l.bytes <+: m) :
+    lcp s <+: m ∧ (∀ l ∈ s, lcp s <+: l.bytes) ∧ ∀ p, (∀ l ∈ s, p <+: l.bytes) → p <+: lcp s := by
+  refine ⟨lcp_keeps_prefix s m h, lcp_prefix_all s, fun p hp => lcp_greatest s p hp ?_⟩
+  obtain ⟨l, hl, -⟩ := h
+  intro e; rw [e] at hl; nomatch hl
+
+/-- LongestCommonSuffix: if every match ends with one of the suffix literals, it ends with their LCS -/
+theorem C17_lcs_keeps_suffix (s : List SeqOps.Lit) (m : List Nat) (h : ∃ l ∈ s, l.bytes <:+ m) :
+    lcs s <:+ m ∧ (∀ l ∈ s, lcs s <:+ l.bytes) ∧ ∀ p, (∀ l ∈ s, p <:+ l.bytes) → p <:+ lcs s := by
+  refine ⟨lcs_keeps_suffix s m h, lcs_suffix_all s, fun p hp => lcs_greatest s p hp ?_⟩
+  obtain ⟨l, hl, -⟩ := h
+  intro e; rw [e] at hl; nomatch hl
+
+/-- Minimize (prefix sequences): a match starts with a literal of the sequence iff it starts with one of the minimised
+    sequence — for the model's stable sort and for ANY length-sorted arrangement `s'` Go's unstable `sort.Slice` may
+    produce; the minimised literals are literals of the input, none a prefix of another -/
+theorem C17_minimize_keeps_prefix (s : List SeqOps.Lit) (m : List Nat) :
+    ((∃ l ∈ s, l.bytes <+: m) ↔ (∃ l ∈ minimize s, l.bytes <+: m)) ∧
+    (∀ s', s'.Perm s → ((∃ l ∈ s, l.bytes <+: m) ↔ (∃ l ∈ minLoop [] s', l.bytes <+: m))) ∧
+    (∀ l ∈ minimize s, l ∈ s) ∧ (minimize s).Pairwise Incomp :=
+  ⟨minimize_keeps_prefix s m, fun s' hp => minimize_any_sort_keeps_prefix s s' hp m, minimize_subset s,
+    minimize_antichain s⟩
+
+/-- Dedup: any guarantee stated on the byte strings (prefix, suffix, inner) is kept, both ways -/
+theorem C17_dedup_keeps (s : List SeqOps.Lit) (m : List Nat) :
+    ((∃ l ∈ s, l.bytes <+: m) ↔ (∃ l ∈ dedup s, l.bytes <+: m)) ∧
+    ((∃ l ∈ s, l.bytes <:+ m) ↔ (∃ l ∈ dedup s, l.bytes <:+ m)) ∧
+    ((∃ l ∈ s, l.bytes <:+: m) ↔ (∃ l ∈ dedup s, l.bytes <:+: m)) :=
+  ⟨dedup_keeps s (· <+: m), dedup_keeps s (· <:+ m), dedup_keeps s (· <:+: m)⟩
+
+/-- KeepFirstBytes: truncation keeps the prefix guarantee and the meaning of the flags -/
+theorem C17_truncation_keeps_prefix (s : List SeqOps.Lit) (n : Int) (m : List Nat) :
+    ((∃ l ∈ s, l.bytes <+: m) → ∃ l ∈ keepFirstBytes s n, l.bytes <+: m) ∧
+    (Covers s m → Covers (keepFirstBytes s n) m) :=
+  ⟨keepFirstBytes_keeps_prefix s n m, keepFirstBytes_covers s n m⟩
+
+/-- CrossForward: the product of a sequence that accounts for `a` and one that accounts for `b` accounts for `a ++ b`;
+    in particular every match `a ++ b ++ rest` starts with a literal of the product -/
+theorem C17_cross_product_sound (s t : List SeqOps.Lit) (a b rest : List Nat) (hs : Covers s a) (ht : Covers t b) :
+    Covers (crossForward s t) (a ++ b) ∧ ∃ l ∈ crossForward s t, l.bytes <+: a ++ b ++ rest :=
+  ⟨crossForward_sound s t a b hs ht, crossForward_keeps_prefix s t a b rest hs ht⟩
+
+/- non-vacuity: a prefix set for `(hello|help)…`, and the reductions applied to it -/
+example : (∃ l ∈ [(⟨[104, 101, 108, 108, 111], true⟩ : SeqOps.Lit), ⟨[104, 101, 108, 112], false⟩],
+      l.bytes <+: [104, 101, 108, 112, 33]) ∧
+    lcp [⟨[104, 101, 108, 108, 111], true⟩, ⟨[104, 101, 108, 112], false⟩] = [104, 101, 108] ∧
+    keepFirstBytes [⟨[104, 101, 108, 108, 111], true⟩, ⟨[104, 101, 108, 112], false⟩] 3 =
+      [⟨[104, 101, 108], false⟩, ⟨[104, 101, 108], false⟩] ∧
+    dedup [⟨[104, 101, 108], false⟩, ⟨[104, 101, 108], false⟩] = [⟨[104, 101, 108], false⟩] := by decide
+
+end SeqOps
 
 end Cx.C17
